@@ -30,7 +30,7 @@ INV = {a: v for v, (_, _, a) in etgen.VARS.items()}
 
 
 def cases(tier, sd):
-    n = 48 if tier == "quick" else 400
+    n = 48 if tier == "quick" else 1000
     return [dict(seed=20000 * sd + i) for i in range(n)]
 
 
